@@ -38,6 +38,10 @@ pub(crate) fn parse_number<R: Read>(scanner: &mut Scanner<R>) -> Result<Number, 
     );
 
     match number.parse::<f64>() {
+        // Only a finite number can have an unit, an overflow can't be written back with its unit
+        Ok(num) if unit.is_some() && !num.is_finite() => {
+            scanner.make_generic_err(&format!("Number out of range '{number}'"))
+        }
         Ok(num) => Ok(Number { value: num, unit }),
         Err(_) => scanner.make_generic_err(&format!("Invalid number format '{number}'")),
     }
